@@ -4,6 +4,8 @@ from contracts import negotiation as N
 PROPERTY = "C10"
 LEVEL = "proof"
 ASSUMPTIONS = [
+    "class invariant of PresentationContext used as a precondition: the empty UID is never in _transfer_syntax - proved by "
+    "TsInvariantTask on the real add_transfer_syntax + validate_uid; assumed library fact: pydicom UID('').is_valid is False",
     "requires: proposed context ids distinct, odd, 1..255; >= 1 transfer syntax per proposed and per supported context; "
     "supported contexts unique per abstract syntax (dict keys do not collide)",
     "UIDs are abstract identities: the code only compares them for equality (sort order of role replies by UID is not constrained)",
@@ -13,7 +15,7 @@ ASSUMPTIONS = [
 
 
 def tasks(tier):
-    return [N.NegAcceptorTask("C10/"), N.RoleTableTask("C10/"), N.NegUnrestrictedTask("C10/")]
+    return [N.NegAcceptorTask("C10/"), N.RoleTableTask("C10/"), N.NegUnrestrictedTask("C10/"), N.TsInvariantTask("C10/")]
 
 
 def replay(rec):
